@@ -181,6 +181,9 @@ func (c *Ctx) Case(id string, f func(r *R)) {
 	if !c.owns(idx, id) {
 		return
 	}
+	if f := os.Getenv("VERIF_CASES"); f != "" && !strings.Contains(id, f) {
+		return // development aid: run only the cases whose id contains $VERIF_CASES (results go to .work/ov-out)
+	}
 	if !c.deadline.IsZero() && time.Now().After(c.deadline) {
 		c.capped++
 		return
@@ -671,6 +674,10 @@ func crashSig(stderr string) string {
 // outDir is where evidence and replay files go: /verif, unless VERIF_OUT_DIR is set (development runs
 // against a deliberately modified tree must not overwrite the real evidence).
 func outDir() string {
+	if os.Getenv("VERIF_CASES") != "" && os.Getenv("VERIF_OUT_DIR") == "" {
+		os.MkdirAll("/verif/.work/ov-out", 0o755)
+		return "/verif/.work/ov-out"
+	}
 	if d := os.Getenv("VERIF_OUT_DIR"); d != "" {
 		return d
 	}
